@@ -144,8 +144,12 @@ class Case:
         enc = frag.get("enc", "none")
         if enc == "text":
             # one value per line; float32 values are written with enough digits to convert back exactly
-            data = "".join(("%s\n" % (repr(float(v)) if t >= 8 else str(v))) for v in vals).encode()
-            self.files[name + ".txt"] = data
+            # well-formed variants of a text data file: LF or CRLF line ends, last line with or without one
+            nl = rng.choice(["\n", "\n", "\n", "\r\n"])
+            data = nl.join((repr(float(v)) if t >= 8 else str(v)) for v in vals)
+            if vals and rng.random() < 0.6:
+                data += nl
+            self.files[name + ".txt"] = data.encode()
         else:
             data = b"".join(struct.pack((">" if big else "<") + CODES[t], v) for v in vals)
             if enc == "none" and SIZES[t] > 1 and rng.random() < 0.1:
@@ -272,6 +276,26 @@ class Case:
                     b = rng.choice(cs)
                 else:
                     kind = "multiply"
+        if two and not self.simple and rng.random() < 0.25:
+            # region: inputs that begin inside a frame -- each input wrapped in its own PHASE by a
+            # negative shift smaller than a frame (beginning-of-field with a sub-frame part)
+            def shifted(x):
+                if x[0] == "INDEX" or x[2] + 1 >= self.depth_max:
+                    return x
+                nm = "f%d" % len(self.fields)
+                shv = -rng.randint(1, max(1, x[3] - 1)) if x[3] > 1 else -1
+                frag["lines"].append("%s PHASE %s %d" % (nm, x[0], shv))
+                self.drv.append("def %s phase %s %d" % (nm, x[0], shv))
+                fld = (nm, "phase", x[2] + 1, x[3], x[4], x[5], x[6], x[7])
+                if x[0] in getattr(self, "scalar_phase", set()):
+                    self.scalar_phase = self.scalar_phase | {nm}
+                self.fields.append(fld)
+                return fld
+            a = shifted(a)
+            b = shifted(b)
+            if kind == "lincom3":
+                c = shifted(c)
+            name = "f%d" % len(self.fields)
         depth = 1 + max(x[2] for x in (a, b or a, (c or a) if kind == "lincom3" else a))
         if kind == "lincom1":
             m, bb = sv(), rng.choice([0, 0, 1, -3, 0.5])
@@ -882,6 +906,9 @@ def complex_probe(chk, exe, root, stats, ncases):
                 w = repr_of(v, suf[1:]) if suf else v
                 # the argument of a negative real number: +pi or -pi according to the sign of a zero
                 # imaginary part, which the Standards do not define: both accepted
+                if suf == ".a" and v == 0:
+                    exp.append(None)          # the argument of zero depends on the signs of its zero parts: not judged
+                    continue
                 exp.append(("pi", w) if suf == ".a" and v.imag == 0 and v.real < 0 else w)
             cmds.append("G %s%s %d %d %d" % (base, suf, rt, s, n))
             plan.append((ci, "\n".join(fmt), base + suf, rt, s, n, exp, base == "dv"))
